@@ -175,12 +175,25 @@ func scratchField(v ssa.Value, before ssa.Instruction, tname string) string {
 		}
 		break
 	}
-	ms, ok := v.(*ssa.MakeSlice)
-	if !ok {
+	var refs []ssa.Instruction
+	var ms ssa.Value
+	switch y := v.(type) {
+	case *ssa.MakeSlice:
+		ms = y
+		refs = *y.Referrers()
+	case *ssa.Alloc:
+		// var b [2]byte; PutUint16(b[:], …); write(b[:]): the calls that receive a slice of the array
+		ms = y
+		for _, r := range *y.Referrers() {
+			if sl, ok := r.(*ssa.Slice); ok {
+				refs = append(refs, *sl.Referrers()...)
+			}
+		}
+	default:
 		return ""
 	}
 	var best *ssa.Call
-	for _, ref := range *ms.Referrers() {
+	for _, ref := range refs {
 		c, ok := ref.(*ssa.Call)
 		if !ok || c.Pos() >= before.Pos() {
 			continue
@@ -197,7 +210,10 @@ func scratchField(v ssa.Value, before ssa.Instruction, tname string) string {
 	}
 	s := strset{}
 	for _, a := range best.Call.Args {
-		if a != ssa.Value(ms) {
+		if sl, ok := a.(*ssa.Slice); ok && sl.X == ms {
+			continue
+		}
+		if a != ms {
 			traceField(a, tname, map[ssa.Value]bool{}, s)
 		}
 	}
@@ -243,11 +259,20 @@ func fixedResultLen(fn *ssa.Function) (int64, bool) {
 // writerLayout: ordered parts appended to the result of fn (a `bytes()` method of struct tname).
 func writerLayout(p *Prog, fn *ssa.Function, tname string) ([]layoutPart, bool) {
 	var calls []*ssa.Call
+	byteArg := map[*ssa.Call]bool{} // (*bytes.Buffer).WriteByte: one byte
 	for _, b := range fn.Blocks {
 		for _, ins := range b.Instrs {
 			if c, ok := ins.(*ssa.Call); ok {
 				if bi, ok := c.Call.Value.(*ssa.Builtin); ok && bi.Name() == "append" {
 					calls = append(calls, c)
+				}
+				// the same sequence written into a bytes.Buffer
+				switch calleeName(&c.Call) {
+				case "(*bytes.Buffer).Write":
+					calls = append(calls, c)
+				case "(*bytes.Buffer).WriteByte":
+					calls = append(calls, c)
+					byteArg[c] = true
 				}
 			}
 		}
@@ -257,6 +282,19 @@ func writerLayout(p *Prog, fn *ssa.Function, tname string) ([]layoutPart, bool) 
 	for _, c := range calls {
 		arg := c.Call.Args[1]
 		part := layoutPart{pos: p.Pos(c.Pos())}
+		if byteArg[c] {
+			part.width = 1
+			s := strset{}
+			traceField(arg, tname, map[ssa.Value]bool{}, s)
+			if ac, ok := arg.(*ssa.Call); ok {
+				for _, a := range ac.Call.Args {
+					traceField(a, tname, map[ssa.Value]bool{}, s)
+				}
+			}
+			part.field, _ = oneOf(s)
+			parts = append(parts, part)
+			continue
+		}
 		fieldOf := func(v ssa.Value) string {
 			if f := scratchField(v, c, tname); f != "" {
 				return f
@@ -308,6 +346,9 @@ func writerLayout(p *Prog, fn *ssa.Function, tname string) ([]layoutPart, bool) 
 					}
 				}
 				part.field, _ = oneOf(s)
+				if part.field == "" {
+					part.field = scratchField(x, c, tname) // a scratch array filled by binary.PutUintNN
+				}
 			} else {
 				return nil, false
 			}
